@@ -23,12 +23,14 @@ ASSUMPTIONS = [
     "exit under substitute threading / time module objects; CPython's own scheduler is not examined",
     "a step budget (3000 scheduling points) turns a would-be hang into the reported outcome 'aborted'",
     "protocol misuse in manual mode (advance / finish before start, start twice) raises the documented RuntimeError",
+    "with a format that shows the elapsed time, set_message() before start() is not exercised: there is no start time yet and the library does not guard that call",
 ]
 
 # messages are shown verbatim, also when they look like the placeholders of the indicator's own format
 START, END = "S0", "E9 {elapsed}"
 MSGS = {"M1": "M1", "M2": "M2-longer {elapsed:6s} {indicator} {message}", "ME": END}  # ME: the end message itself
 VALUES = ["-", "\\", "|", "/"]
+ELAPSED = r"(?:< 1 sec|1 sec|\d+ secs|1 min|\d+ mins|1 hr|\d+ hrs|1 day|\d+ days)"
 
 
 class Boom(Exception):
@@ -197,7 +199,28 @@ def check_manual(ctx, case, by_construction=False):
     try:
         stream = vclock.RecordingStream(clock)
         out = Output(stream, AnsiFormatter(forced=True) if ansi else PlainFormatter())
-        ind = pimod.ProgressIndicator(out, interval=100)
+        variant = case.get("variant")
+        values = VALUES
+        if variant == "verbose":
+            out.set_verbosity(1)  # the indicator then chooses its format with the elapsed time
+            ind = pimod.ProgressIndicator(out, interval=100)
+        elif variant == "custom":
+            values = ["a", "bb", "c"]
+            ind = pimod.ProgressIndicator(out, "{message} | {indicator} | {elapsed:4s} | {unknown}", 100, list(values))
+        else:
+            ind = pimod.ProgressIndicator(out, interval=100)
+        vals = "|".join(re.escape(v) for v in values)
+
+        def frame_ok(text, message):
+            msg = re.escape(str(message))
+            if variant == "custom":
+                rx = r"%s \| (?:%s) \| %s \| \{unknown\}\Z" % (msg, vals, ELAPSED)
+            elif variant == "verbose":
+                rx = (r" (?:%s) %s \(%s\)\Z" % (vals, msg, ELAPSED)) if ansi else (r" %s \(%s\)\Z" % (msg, ELAPSED))
+            else:
+                rx = (r" (?:%s) %s\Z" % (vals, msg)) if ansi else (r" %s\Z" % msg)
+            return re.match(rx, text) is not None
+
         started = False
         message = None
         current = 0
@@ -222,6 +245,8 @@ def check_manual(ctx, case, by_construction=False):
                     want_error = not started
                     ind.advance()
                 elif k == "msg":
+                    if variant and not started:
+                        continue  # no start time yet: a format with the elapsed time cannot be drawn (see ASSUMPTIONS)
                     ind.set_message(MSGS[op[1]])
                     message = MSGS[op[1]]
                 elif k == "finish":
@@ -246,15 +271,10 @@ def check_manual(ctx, case, by_construction=False):
                 return
             for w in frames:
                 text = markup.strip_sgr(w[2]).replace("\r", "").replace("\x1b[2K", "").rstrip("\n")
-                if ansi:
-                    m = rx.match(text)
-                    if not m or (message is not None and not text.endswith(" " + message)):
-                        ctx.fail("manual", "C19.manual-frame", case, "' <value> %s'" % message, text, sig="frame")
-                        return
-                else:
-                    if text != " " + str(message):
-                        ctx.fail("manual", "C19.manual-frame", case, " " + str(message), text, sig="plain-frame")
-                        return
+                if not frame_ok(text, message):
+                    ctx.fail("manual", "C19.manual-frame", case, "a frame of the %s format showing %r" % (variant or "default", message),
+                             text, sig="frame" if ansi else "plain-frame")
+                    return
             if k == "advance":
                 if frames:
                     dt_ms = round((clock.now - last_advance_frame) * 1000)
@@ -283,6 +303,11 @@ def shard_manual(ctx, arg):
         ops = [MANUAL_OPS[first]] + list(rest)
         for ansi in (True, False):
             check_manual(ctx, {"ops": ops, "ansi": ansi}, True)
+        # the same sequences one op shorter with the verbose format (elapsed time) and a custom format / values
+        if len(ops) < n or ops[-1] == MANUAL_OPS[0]:
+            for variant in ("verbose", "custom"):
+                for ansi in (True, False):
+                    check_manual(ctx, {"ops": ops[:-1] if len(ops) == n else ops, "ansi": ansi, "variant": variant}, True)
 
 
 PARTS = {"auto-enum": lambda ctx, c: check_auto(ctx, c, part="auto-enum"), "auto-random": check_auto, "manual": check_manual}
@@ -306,4 +331,4 @@ def run(ctx):
     ctx.hyp_sharded("auto-random", 3000 if quick else 100000, salt=1)
     n = 5 if quick else 6
     ctx.parallel("shard_manual", [(f, n) for f in range(len(MANUAL_OPS))])
-    ctx.exhaustive("manual", True, "all %d^%d op sequences x ANSI/plain" % (len(MANUAL_OPS), n))
+    ctx.exhaustive("manual", True, "all %d^%d op sequences x ANSI/plain; all of length %d also with the verbose format and with a custom format and custom indicator values" % (len(MANUAL_OPS), n, n - 1))
